@@ -331,6 +331,23 @@ func describeExpr(f *FuncInfo, e ast.Expr, depth int) string {
 				return "var"
 			}
 			defs := defsOfVarWithIndex(f, o)
+			if describeCanonical {
+				if x := inductionOver(f, o); x != nil {
+					return "rangekey(" + describeExpr(f, x, depth+1) + ")"
+				}
+			}
+			if describeCanonical && len(defs) != 1 {
+				// guarded-action mode: a variable with several (or no) definitions is opaque — which definitions reach a
+				// use changes whenever a step is added, and must not change the rendering of the steps that follow
+				if sig, ok := f.Obj.Type().(*types.Signature); ok {
+					for i := 0; i < sig.Results().Len(); i++ {
+						if sig.Results().At(i) == o {
+							return "result#" + itoa(i)
+						}
+					}
+				}
+				return "var:" + types.TypeString(o.Type(), func(p *types.Package) string { return p.Name() })
+			}
 			if describeUsePos.IsValid() && len(defs) > 1 {
 				// position-sensitive mode: walk the definitions textually before the use, latest first, up to and
 				// including the first one whose statement list encloses the use (it kills the earlier ones); definitions
@@ -400,6 +417,14 @@ func describeExpr(f *FuncInfo, e ast.Expr, depth int) string {
 		return "ident:" + x.Name
 	case *ast.SelectorExpr:
 		if s := info.Selections[x]; s != nil {
+			if describeCanonical && s.Kind() == types.FieldVal && !ast.IsExported(x.Sel.Name) {
+				// an unexported field is identified by its position and type in the struct, not by its name
+				idx := ""
+				for _, i := range s.Index() {
+					idx += "." + itoa(i)
+				}
+				return describeExpr(f, x.X, depth) + ".~f" + idx[1:] + ":" + types.TypeString(s.Obj().Type(), func(p *types.Package) string { return p.Name() })
+			}
 			return describeExpr(f, x.X, depth) + "." + x.Sel.Name
 		}
 		// qualified identifier
@@ -445,6 +470,11 @@ func describeExpr(f *FuncInfo, e ast.Expr, depth int) string {
 		l, r := describeExpr(f, x.X, depth), describeExpr(f, x.Y, depth)
 		op := x.Op
 		if describeCanonical {
+			// emptiness tests on len()/cap(): one rendering for == 0, < 1, <= 0 and one for != 0, > 0, >= 1
+			emptinessFunc = f
+			if e := emptinessTest(info, x, l, r); e != "" {
+				return e
+			}
 			// operands of commutative operators in lexical order; > and >= turned into < and <=
 			switch op {
 			case token.EQL, token.NEQ, token.LAND, token.LOR, token.ADD, token.MUL, token.AND, token.OR, token.XOR:
@@ -462,6 +492,19 @@ func describeExpr(f *FuncInfo, e ast.Expr, depth int) string {
 		}
 		return "(" + l + op.String() + r + ")"
 	case *ast.IndexExpr:
+		if describeCanonical {
+			// X[i] inside `for i := 0; i < len(X); i++` is the element a range loop over X would bind
+			if id, ok := ast.Unparen(x.Index).(*ast.Ident); ok {
+				if v, ok := info.Uses[id].(*types.Var); ok {
+					if over := inductionOver(f, v); over != nil && describeExpr(f, over, depth+1) == describeExpr(f, x.X, depth+1) {
+						return "range(" + describeExpr(f, x.X, depth+1) + ")"
+					}
+					if over := rangeKeyOver(f, v); over != nil && describeExpr(f, over, depth+1) == describeExpr(f, x.X, depth+1) {
+						return "range(" + describeExpr(f, x.X, depth+1) + ")"
+					}
+				}
+			}
+		}
 		return describeExpr(f, x.X, depth) + "[" + describeExpr(f, x.Index, depth) + "]"
 	case *ast.SliceExpr:
 		lo, hi := "", ""
@@ -843,4 +886,172 @@ func describeParam(f *FuncInfo, o *types.Var, i int, depth int) string {
 	}
 	sort.Strings(parts)
 	return "{" + strings.Join(parts, "|") + "}"
+}
+
+// emptinessFunc is the function whose body is being described (set by describeExpr in canonical mode).
+var emptinessFunc *FuncInfo
+
+// emptinessTest recognises comparisons of len(x)/cap(x) with 0 or 1 that mean "empty" / "not empty".
+func emptinessTest(info *types.Info, x *ast.BinaryExpr, l, r string) string {
+	isLenCall := func(e ast.Expr) bool {
+		call, ok := ast.Unparen(e).(*ast.CallExpr)
+		if !ok {
+			return false
+		}
+		id := calleeID(info, call)
+		return id == "builtin.len" || id == "builtin.cap"
+	}
+	isLen := func(e ast.Expr) bool {
+		if isLenCall(e) {
+			return true
+		}
+		// a local integer only ever assigned a length or a non-negative constant is a count: x > 0 and x != 0 coincide
+		id, ok := ast.Unparen(e).(*ast.Ident)
+		if !ok || emptinessFunc == nil {
+			return false
+		}
+		v, ok := info.Uses[id].(*types.Var)
+		if !ok || v.IsField() || paramIndex(emptinessFunc, v) >= 0 {
+			return false
+		}
+		defs := defsOfVarWithIndex(emptinessFunc, v)
+		if len(defs) == 0 {
+			return false
+		}
+		for _, d := range defs {
+			if d.rhs == nil || d.index >= 0 {
+				return false
+			}
+			if isLenCall(d.rhs) {
+				continue
+			}
+			if tv, ok := info.Types[d.rhs]; ok && tv.Value != nil && !strings.HasPrefix(tv.Value.String(), "-") {
+				continue
+			}
+			return false
+		}
+		return true
+	}
+	constOf := func(e ast.Expr) (int64, bool) {
+		if tv, ok := info.Types[e]; ok && tv.Value != nil {
+			return parseInt(tv.Value.String()), tv.Value.String() == "0" || tv.Value.String() == "1"
+		}
+		return 0, false
+	}
+	var lenDesc string
+	var k int64
+	op := x.Op
+	switch {
+	case isLen(x.X):
+		v, ok := constOf(x.Y)
+		if !ok {
+			return ""
+		}
+		lenDesc, k = l, v
+	case isLen(x.Y):
+		v, ok := constOf(x.X)
+		if !ok {
+			return ""
+		}
+		lenDesc, k = r, v
+		// mirror the operator: k op len  ==  len op' k
+		switch op {
+		case token.LSS:
+			op = token.GTR
+		case token.LEQ:
+			op = token.GEQ
+		case token.GTR:
+			op = token.LSS
+		case token.GEQ:
+			op = token.LEQ
+		}
+	default:
+		return ""
+	}
+	switch {
+	case k == 0 && (op == token.EQL || op == token.LEQ), k == 1 && op == token.LSS:
+		return "empty(" + lenDesc + ")"
+	case k == 0 && (op == token.NEQ || op == token.GTR), k == 1 && op == token.GEQ:
+		return "nonempty(" + lenDesc + ")"
+	}
+	return ""
+}
+
+// inductionOver: v is the induction variable of `for v := 0; v < len(X); v++` (not assigned in the body); returns X.
+func inductionOver(f *FuncInfo, v *types.Var) ast.Expr {
+	info := f.Info()
+	var out ast.Expr
+	ast.Inspect(f.Decl.Body, func(n ast.Node) bool {
+		fs, ok := n.(*ast.ForStmt)
+		if !ok || fs.Init == nil || fs.Cond == nil || fs.Post == nil {
+			return true
+		}
+		as, ok := fs.Init.(*ast.AssignStmt)
+		if !ok || as.Tok != token.DEFINE || len(as.Lhs) != 1 || len(as.Rhs) != 1 {
+			return true
+		}
+		id, ok := as.Lhs[0].(*ast.Ident)
+		if !ok || info.Defs[id] != v {
+			return true
+		}
+		if tv, ok := info.Types[as.Rhs[0]]; !ok || tv.Value == nil || tv.Value.ExactString() != "0" {
+			return true
+		}
+		be, ok := ast.Unparen(fs.Cond).(*ast.BinaryExpr)
+		if !ok || be.Op != token.LSS || !isVar(info, be.X, v) {
+			return true
+		}
+		call, ok := ast.Unparen(be.Y).(*ast.CallExpr)
+		if !ok || calleeID(info, call) != "builtin.len" || len(call.Args) != 1 {
+			return true
+		}
+		inc, ok := fs.Post.(*ast.IncDecStmt)
+		if !ok || inc.Tok != token.INC || !isVar(info, inc.X, v) {
+			return true
+		}
+		// not assigned in the body
+		assigned := false
+		ast.Inspect(fs.Body, func(m ast.Node) bool {
+			switch y := m.(type) {
+			case *ast.AssignStmt:
+				for _, l := range y.Lhs {
+					if isVar(info, l, v) {
+						assigned = true
+					}
+				}
+			case *ast.IncDecStmt:
+				if isVar(info, y.X, v) {
+					assigned = true
+				}
+			}
+			return true
+		})
+		if !assigned {
+			out = call.Args[0]
+		}
+		return true
+	})
+	return out
+}
+
+// rangeKeyOver: v is the key variable of `for v := range X` / `for v, _ := range X` over a slice or array; returns X.
+func rangeKeyOver(f *FuncInfo, v *types.Var) ast.Expr {
+	info := f.Info()
+	var out ast.Expr
+	ast.Inspect(f.Decl.Body, func(n ast.Node) bool {
+		rs, ok := n.(*ast.RangeStmt)
+		if !ok || rs.Key == nil {
+			return true
+		}
+		id, ok := rs.Key.(*ast.Ident)
+		if !ok || info.Defs[id] != v {
+			return true
+		}
+		switch info.TypeOf(rs.X).Underlying().(type) {
+		case *types.Slice, *types.Array:
+			out = rs.X
+		}
+		return true
+	})
+	return out
 }
